@@ -228,6 +228,8 @@ def drain_order_problems(finals):
 def run(repo, rep):
     from ..pitfalls import memo_rule as _memo_rule
     _memo_rule(repo, rep, 'C03', 'C03.Z1')
+    from ..pitfalls import log_rule as _log_rule
+    _log_rule(repo, rep, 'C03', 'C03.Z2')
     model = FsmModel(repo)
     pm = ProviderModel(repo, model)
     off, size, hdr, big = header_layout(repo)
